@@ -139,6 +139,9 @@ func (c *FnCtx) translate() (err error) {
 		}
 	}
 	c.epilogue()
+	if dead := c.deadHints(); len(dead) > 0 {
+		panic(unsupported("the contract has 'before " + strings.Join(dead, "', 'before ") + "' clause(s) but the function has no such call / channel operation"))
+	}
 	return nil
 }
 
